@@ -2186,7 +2186,12 @@ def _lt(token: TokenT, left: object, right: object) -> bool:
 
 def _contains(token: TokenT, left: object, right: object) -> bool:
     if isinstance(left, str):
-        return str(right) in left
+        return to_str(right) in left
+    if isinstance(left, range):
+        # Looking for anything but an integer would visit every item of the range.
+        if isinstance(right, float) and right.is_integer():
+            right = int(right)
+        return isinstance(right, int) and right in left
     if isinstance(left, Collection):
         try:
             return right in left
